@@ -431,9 +431,30 @@ def run(ctx, res):
     check_table(res)
     cases = corpus() + gen_histories(ctx.rng, ctx.n(24, 96), rounds=ctx.n(2, 12))
     check_cases(cases, res)
+    # the package's merger adds values published in different units of one dimension (C20's harness, mixed units only)
+    from . import c20
+    for _ in range(ctx.n(40, 600)):
+        c = c20.gen_ws(ctx.rng)
+        if len({p["units"] for p in c["pairs"]}) < 2:
+            continue
+        res.case(c, True)
+        res.count("part", "weighted-sum-mixed-units")
+        o = c20.oracle_ws(c, c20.run_ws(c))
+        if o:
+            res.fail(c, o[0], o[1])
 
 
 def search(ctx, res, divergences, broken):
+    from . import c20
+    for _ in range(200):
+        c = c20.gen_ws(ctx.rng)
+        if len({p["units"] for p in c["pairs"]}) < 2:
+            continue
+        res.case(c, True)
+        o = c20.oracle_ws(c, c20.run_ws(c))
+        if o:
+            res.fail(c, o[0], o[1])
+            return
     cases = [d["case"] for d in divergences if d.get("case") and "ops" in d["case"]] + corpus() + gen_histories(ctx.rng, 24, rounds=2)
     for c in cases:
         impl = run_impl(c)
@@ -454,6 +475,8 @@ def _fails(case):
 def shrink(ctx, f):
     """cut the history after the failing operation, then drop operations while the oracle keeps failing"""
     case = f["case"]
+    if case.get("part") == "ws":
+        return f
     obs = f["observed"]
     ops = list(case["ops"])
     if isinstance(obs, dict) and "op_index" in obs:
@@ -492,6 +515,10 @@ def shrink(ctx, f):
 
 def replay(ctx, rp):
     case = rp.get("input") or (rp.get("diverging_case") or {}).get("case")
+    if case.get("part") == "ws":
+        from . import c20
+        o = c20.oracle_ws(case, c20.run_ws(case))
+        return {"fails": bool(o), "oracle": o}
     case = {"ops": case["ops"]}
     impl = run_impl(case)
     o = oracle(case, impl)
